@@ -77,7 +77,9 @@ def inline(r, c: Ctx, depth=0) -> str:
     if k < 0.47:
         return f"`{r.choice(['code', 'a b', 'x*y', '{role}'])}`"
     if k < 0.52:
-        return f"[{inline(r, c, depth + 1)}](https://example.com/{r.choice(WORDS[:6])})"
+        return r.choice([f"[{inline(r, c, depth + 1)}](https://example.com/{r.choice(WORDS[:6])})",
+                         f"[{w}](wiki:Some_Page#sec)", "<wiki:Auto>", f"[{w}](http://h.example/{r.choice(WORDS[:6])})",
+                         f"[{inline(r, c, depth + 1)}](https://example.com/{r.choice(WORDS[:6])})"])
     if k < 0.58 and c.on("anchor_links"):
         tgt = r.choice(["intro", "usage", "usage-1", "api", "missing-anchor", "a-b"] + c.labels[-3:])
         return r.choice([f"[{w}](#{tgt})", f"[](#{tgt})", f"<project:#{tgt}>"])
@@ -128,7 +130,10 @@ def inline(r, c: Ctx, depth=0) -> str:
                          "<img src>", "<img class src=\"img.png\">"])
     if k < 0.97 and "attrs_inline" in c.ext:
         return r.choice([f"[{w}]{{.cls #{c.new_label()}}}" if c.allow_labels else f"[{w}]{{.cls}}", "`c`{.lang}", "![a](img.png){width=10px}",
-                         f"[{w}]{{bad=}}", f"[{w}](https://x.y){{target=_blank}}"])
+                         f"[{w}]{{bad=}}", f"[{w}](https://x.y){{target=_blank}}",
+                         f"[{w}](https://example.com/a){{.important}}", f"[{w}](wiki:Page#frag){{.wl .x}}",
+                         "<https://example.com/b>{.auto}", f"[{w}](http://h.example/p){{#{c.new_label()} .k}}"
+                         if c.allow_labels else f"[{w}](http://h.example/p){{.k}}"])
     if k < 0.985 and "strikethrough" in c.ext:
         return f"~~{w}~~"
     return r.choice([f"{w}\\\n{w}", f"{w}  \n{w}", "&amp; &copy; &#35;", "<https://auto.link>", "![alt](img.png)",
@@ -432,6 +437,11 @@ FM_OVERRIDES_OK = [
     ("footnote_sort", "false"), ("footnote_transition", "false"), ("heading_anchors", "3"),
     ("enable_extensions", "[\"dollarmath\", \"deflist\"]"), ("enable_extensions", "[]"),
     ("title_to_header", "true"), ("substitutions", "{key1: \"fm *value*\", fm_only: 7}"),
+    ("substitutions", "{key1: \"other **value**\", fm_only: 8}"), ("substitutions", "{key1: \"third\", key2: 3}"),
+    ("html_meta", "{\"description lang=en\": \"another desc\", keywords: \"c, d\"}"),
+    ("url_schemes", "{http: null, https: null, wiki: \"https://fm.wiki/{{path}}\"}"), ("url_schemes", "[http, https]"),
+    ("heading_anchors", "1"), ("sub_delimiters", "[\"|\", \"|\"]"), ("suppress_warnings", "[\"myst.html\", \"myst.substitution\"]"),
+    ("number_code_blocks", "[c]"), ("words_per_minute", "300"),
     ("html_meta", "{\"description lang=en\": \"desc\", keywords: \"a, b\"}"), ("all_links_external", "true"),
     ("number_code_blocks", "[python]"), ("words_per_minute", "100"), ("enable_checkboxes", "true"),
     ("fence_as_directive", "[python]"), ("suppress_warnings", "[\"myst.header\"]"),
@@ -535,13 +545,21 @@ def gen_config(r, front_end="docutils", inventories=None) -> dict:
     if r.random() < 0.2:
         cfg["footnote_transition"] = False
     if r.random() < 0.4 or "substitution" in ext:
-        cfg["substitutions"] = {"key1": "sub *one*", "key2": 2, "cyc_a": "{{ cyc_b }}", "cyc_b": "{{ cyc_a }}",
-                                "key_block": "- a\n- b", "key_dir": "```{note}\nfrom sub\n```"}
+        cfg["substitutions"] = {"key1": r.choice(["sub *one*", "sub *one*", "sub _uno_", "eins"]),
+                                "key2": r.choice([2, 2, 22]), "cyc_a": "{{ cyc_b }}", "cyc_b": "{{ cyc_a }}",
+                                "key_block": r.choice(["- a\n- b", "- a\n- b", "1. x"]),
+                                "key_dir": "```{note}\nfrom sub\n```"}
     if r.random() < 0.15:
-        cfg["html_meta"] = {"description": "global desc", "property=og:title": "t"}
-    if r.random() < 0.15:
+        cfg["html_meta"] = {"description": r.choice(["global desc", "global desc", "alt desc"]),
+                            "property=og:title": "t"}
+    if r.random() < (0.4 if "attrs_inline" in ext else 0.15):
         cfg["url_schemes"] = r.choice([["http", "https"], {"http": None, "wiki": "https://w/{{path}}#{{fragment}}"},
-                                       {"https": {"url": "{{uri}}", "title": "T", "classes": ["c"]}}])
+                                       {"https": {"url": "{{uri}}", "title": "T", "classes": ["c"]}},
+                                       {"http": None, "https": {"classes": ["ext"]},
+                                        "wiki": {"url": "https://w/{{path}}", "title": "W {{path}}",
+                                                 "classes": ["wiki-link"]}},
+                                       {"https": None, "wiki": {"url": "https://other.wiki/{{path}}",
+                                                                "classes": ["wiki-link", "alt"]}}])
     if r.random() < 0.1:
         cfg["title_to_header"] = True
     if r.random() < 0.1:
